@@ -65,6 +65,13 @@ Key line_key(const std::string &l)
 			k.kind = 1;
 			k.v = model::days_from_civil(y, (unsigned)m, (unsigned)d) * 86400;
 			k.raw = l.substr(i, 10);
+			if (i + 17 <= n && l[i + 10] == 'T' && l[i + 13] == ':' && l[i + 16] == ':' && (i + 17 == n || !isdig(l[i + 17]))) {
+				/* hours and minutes, then a colon that introduces no seconds: the colon is not the value's */
+				k.kind = 2;
+				k.v += atoi(l.substr(i + 11, 2).c_str()) * 3600 + atoi(l.substr(i + 14, 2).c_str()) * 60;
+				k.raw = l.substr(i, 16);
+				return k;
+			}
 			if (i + 19 <= n && l[i + 10] == 'T' && l[i + 13] == ':' && l[i + 16] == ':') {
 				k.kind = 2;
 				k.v += atoi(l.substr(i + 11, 2).c_str()) * 3600 + atoi(l.substr(i + 14, 2).c_str()) * 60 + atoi(l.substr(i + 17, 2).c_str());
@@ -79,6 +86,19 @@ Key line_key(const std::string &l)
 				}
 			}
 			return k;
+		}
+		{
+			/* -i %s: a run of 9 to 11 digits */
+			size_t e = i;
+			while (e < n && isdig(l[e]))
+				e++;
+			if (e - i >= 9 && e - i <= 11 && (e == n || l[e] == ' ')) {
+				k.dated = true;
+				k.kind = 2;
+				k.v = atoll(l.substr(i, e - i).c_str());
+				k.raw = l.substr(i, e - i);
+				return k;
+			}
 		}
 		if (i + 8 <= n && (i + 8 == n || l[i + 8] == ' ') && std::all_of(l.begin() + i, l.begin() + i + 8, isdig)) {
 			/* -i %Y%m%d */
@@ -178,8 +198,8 @@ struct SortEngine : Engine {
 		/* input formats: one real format among 0..39 others; the needle table is sized from their number */
 		int ifk = 0;	/* 0 default parser, 1 %Y%m%d, 2 %d/%m/%Y */
 		if (!ymcw && r.chance(1, 5)) {
-			ifk = (int)r.range(1, 2);
-			kind = 1;
+			ifk = (int)r.range(1, 3);	/* 3: epoch seconds, around the 32-bit limits */
+			kind = ifk == 3 ? 2 : 1;
 			static const char *filler[] = {"q%Yq%mq%d", "%Y_%m_%d", "%d~%m~%Y", "<%F>", "#%j#%Y", "%Y:%m:%d", "%d|%m|%Y", "%m;%d;%Y", "%Y=%j", "%Yx%mx%d",
 						       "%b/%d/%Y", "%B %Y %d", "%G w%V %u", "%Y+%m+%d", "%d^%m^%Y", "{%F}", "%Y %d %b", "%d*%m*%Y", "%Y&%j", "%m'%d'%Y"};
 			static const size_t counts[] = {1, 1, 2, 3, 7, 8, 9, 15, 16, 17, 23, 24, 25, 31, 32, 33, 40};
@@ -188,13 +208,13 @@ struct SortEngine : Engine {
 			for (size_t k2 = 0, f = 0; k2 < want; k2++) {
 				p.argv.push_back("-i");
 				if (k2 == at)
-					p.argv.push_back(ifk == 1 ? "%Y%m%d" : "%d/%m/%Y");
+					p.argv.push_back(ifk == 1 ? "%Y%m%d" : ifk == 2 ? "%d/%m/%Y" : "%s");
 				else {
 					p.argv.push_back(std::string(filler[f % 20]) + (f >= 20 ? "z" : ""));
 					f++;
 				}
 			}
-			p.par["ifmt"] = ifk == 1 ? "%Y%m%d" : "%d/%m/%Y";
+			p.par["ifmt"] = ifk == 1 ? "%Y%m%d" : ifk == 2 ? "%d/%m/%Y" : "%s";
 			p.par["nifmt"] = std::to_string(want);
 		}
 		/* mostly tiny lines: several complete lines fit into one read() behind the line that fills the window */
@@ -235,7 +255,10 @@ struct SortEngine : Engine {
 					b[0] = 0;	/* no date on this line */
 				else if (k == 5)
 					snprintf(b, sizeof(b), "%04d-%02d-%02d-%02d", y0, 1 + (int)r.below(2), (int)r.range(1, 4), (int)r.range(1, 7));
-				else if (k == 1 && ifk == 1)
+				else if (ifk == 3) {
+					static const int64_t centre[] = {2147483648LL, 2147483648LL, 4294967296LL, 1000000000LL, 946684800LL, 253402300799LL / 64};
+					snprintf(b, sizeof(b), "%lld", (long long)(centre[r.below(6)] + r.range(-90, 90)));
+				} else if (k == 1 && ifk == 1)
 					snprintf(b, sizeof(b), "%04d%02d%02d", y, m, d);
 				else if (k == 1 && ifk == 2)
 					snprintf(b, sizeof(b), "%02d/%02d/%04d", d, m, y);
@@ -255,6 +278,28 @@ struct SortEngine : Engine {
 					l += " " + lit(r, (size_t)r.below(20));
 				if (pool.size() < 16)
 					pool.push_back(l);
+				/* a stamp at the start of the line, and right behind it lines whose stamps extend it textually */
+				if (!ymcw && ifk == 0 && (k == 1 || k == 2) && i + 3 < n && r.chance(1, 10)) {
+					char d10[16], e1[48], e2[48], e3[48];
+					snprintf(d10, sizeof(d10), "%04d-%02d-%02d", y, m, d);
+					int H = (int)r.range(1, 22), M = (int)r.range(1, 58);
+					snprintf(e1, sizeof(e1), "%sT%02d:%02d:%02d", d10, H, M, (int)r.range(20, 59));
+					snprintf(e2, sizeof(e2), "%sT%02d:%02d:%02d", d10, H, M, (int)r.range(0, 19));
+					snprintf(e3, sizeof(e3), "%sT%02d:%02d:%02d", d10, H - 1, M, (int)r.below(60));
+					std::string tail = r.chance(1, 2) ? " " + lit(r, (size_t)r.below(6)) : "";
+					in += std::string(d10) + tail + "\n" + e1 + tail + "\n" + e3 + "\n" + e2 + "\n";
+					i += 3;
+					continue;
+				}
+				/* hours and minutes followed by a colon that introduces no seconds */
+				if (!ymcw && ifk == 0 && k == 2 && r.chance(1, 12)) {
+					size_t tpos = l.find('T');
+					if (tpos != std::string::npos && tpos + 9 <= l.size() && l[tpos + 6] == ':') {
+						std::string cut = l.substr(0, tpos + 7);	/* ...THH:MM: */
+						static const char *after[] = {"", " up", "xx", " ", "?"};
+						l = cut + after[r.below(5)];
+					}
+				}
 			}
 			in += l;
 			bool last = i + 1 == n;
